@@ -75,14 +75,16 @@ def choose_overload(name, candidates, engine, receiver, context, args, kwargs):
     if receiver is not utils.NO_VALUE:
         args = (receiver,) + args
     for level in candidates:
-        new_level = []
         for c in level:
             if no_kwargs is None:
                 no_kwargs = c.no_kwargs
-                args, kwargs = translate_args(no_kwargs, args, kwargs)
             elif no_kwargs != c.no_kwargs:
                 raise_ambiguous()
-
+    if no_kwargs is not None:
+        args, kwargs = translate_args(no_kwargs, args, kwargs)
+    for level in candidates:
+        new_level = []
+        for c in level:
             mapping = c.map_args(args, kwargs, context, engine)
             if mapping is None:
                 continue
